@@ -176,7 +176,7 @@ impl Op {
             let _ = write!(s, " sel={}", self.sel);
         }
         if !self.clock.is_empty() {
-            let _ = write!(s, " clock={:?} host={}", self.clock, self.host);
+            let _ = write!(s, " clock={:?} host={:?}", self.clock, self.host);
         }
         if let Some(f) = &self.fault {
             let _ = write!(s, " fault={}@{}{}", f.kind.name(), f.at_permille, if f.persist { "!" } else { "" });
